@@ -104,6 +104,9 @@ def _explore(args):
                     results.append((events, obs if fails else None, fails))
                     break
                 if len(events) > 400:
+                    # an over-long schedule counts as an enumerated one: under a change that makes starts abort for ever no
+                    # schedule ever completes and the enumeration would otherwise never reach its limit
+                    count += 1
                     results.append((events, None, [("C06", "livelock", "schedule exceeds 400 events")]))
                     break
                 if len(ch) == 1:
